@@ -29,7 +29,7 @@ def run(c):
                       "(parser output compared per input in stream glob.tree, matcher in glob.match)"]
     c.coverage["rule"] = ("pattern lists: all single patterns up to length 3 (4 thorough) over {a / . * ? \\ [} and all pairs of "
                           "patterns up to length 2 over {a / * ? .}, each against every path up to length 4 (5) over {a / . [}; "
-                          "plus seeded random lists of 0-4 patterns over 21 symbols incl. newline, brackets, non-ASCII, against random "
+                          "glob()/os.glob() at module load and os.glob() from target bodies (root and sub-package) on generated trees, ignore lists at load and in watch mode (FileChanged events for touched files); plus seeded random lists of 0-4 patterns over 21 symbols incl. newline, brackets, non-ASCII, against random "
                           "and pattern-derived paths. A case is non-trivial when the list compiles; distinct by driver input line.")
     c.prove()
     exe = harness(c)
